@@ -31,6 +31,15 @@ function OBS() {
     var ks = Object.keys(o);
     row.push(ks);
     row.push(typeof o === 'function' || (Object.values(o).length === ks.length && Object.entries(o).length === ks.length));   // functions: pinned finding function-receiver-in-object-statics
+    var veAgree = true;
+    if (typeof o !== 'function') {
+      var vs = Object.values(o), es = Object.entries(o);
+      for (var z = 0; z < ks.length; z++) {
+        var direct; try { direct = o[ks[z]]; } catch (e) { direct = 'THROW'; }
+        if (direct !== 'THROW' && (es[z][0] !== ks[z] || !(vs[z] === direct || (vs[z] !== vs[z] && direct !== direct)) || !(es[z][1] === direct || (es[z][1] !== es[z][1] && direct !== direct)))) { veAgree = false; }
+      }
+    }
+    row.push(veAgree);
     var agree = true;
     for (var q = 0; q < ks.length; q++) { if (!own(o, ks[q]) || !(ks[q] in o)) { agree = false; } }
     row.push(agree);
